@@ -46,7 +46,7 @@ def run(tier, seed):
     quick = tier == 'quick'
     src = open(os.path.join(ROOT, 'harness', 'c07_hist.py')).read()
     hs, batch = [], Batch()
-    T_ = 170 if quick else 1500
+    T_ = 300 if quick else 1500
     import random
     rnd = random.Random(seed)
     ops3 = tuple(sorted(rnd.sample(range(14), 4)))
